@@ -28,7 +28,8 @@ def run_tlc(d, module, cfg, env=None, workers=1, timeout=900, extra=(), heap="4g
         opts += " -Dtlc2.TLC.stopAfter=%d" % int(stop_after)      # TLC ends the search itself and reports what it covered
     e["JAVA_TOOL_OPTIONS"] = opts
     meta = os.path.join(d, "meta-" + module + tag)
-    cmd = ["timeout", str(timeout), "java", "-cp", "/opt/veriftools/tla/tla2tools.jar:/opt/veriftools/tla/CommunityModules-deps.jar",
+    # (-Xss also on the command line: the launcher sizes the main thread, which evaluates ASSUMEs, from its own arguments only)
+    cmd = ["timeout", str(timeout), "java", "-Xss512m", "-cp", "/opt/veriftools/tla/tla2tools.jar:/opt/veriftools/tla/CommunityModules-deps.jar",
            "tlc2.TLC", "-workers", str(workers), "-metadir", meta, "-deadlock", "-config", cfg, module + ".tla"] + list(extra)
     t0 = time.time()
     p = subprocess.run(cmd, cwd=d, env=e, stdout=subprocess.PIPE, stderr=subprocess.STDOUT, universal_newlines=True)
